@@ -1,12 +1,12 @@
 #!/bin/bash
-# tools/run_seeded.sh [tier] [name-glob]  - re-runs every kept seeded change against the checks
-# recorded in its meta.json (caught_by) and reports whether each is still caught.
-# Scratch worktrees only; /repo and the committed evidence are never touched.
-tier="${1:-quick}"; glob="${2:-*}"
+# tools/run_seeded.sh [tier] [name-glob] [parallel]
+# Re-runs every kept seeded change against the checks recorded in its meta.json (caught_by)
+# and reports whether each is still caught. Scratch worktrees only; /repo and the committed
+# evidence are never touched.
+tier="${1:-quick}"; glob="${2:-*}"; par="${3:-2}"
 cd "$(dirname "$0")/.."
-ok=0; miss=0
-for d in seeded/$glob/; do
-  n="$(basename "$d")"
+one() {
+  d="$1"; tier="$2"; n="$(basename "$d")"
   ids="$(python3 - "$d/meta.json" <<'P'
 import json,sys,re
 m=json.load(open(sys.argv[1]))
@@ -14,12 +14,12 @@ ids=[]
 for c in m.get('caught_by',[]):
     for i in re.findall(r'C\d\d', c):
         if i not in ids: ids.append(i)
-print(' '.join(ids[:2]))
+print(' '.join(ids[:1]))
 P
 )"
-  [ -n "$ids" ] || continue
+  [ -n "$ids" ] || { echo "SKIPPED $n (no check is recorded as reporting it)"; return; }
   out="$(tools/trymutant.sh "$d" "$tier" $ids 2>&1)"
-  if echo "$out" | grep -q "exit=1"; then ok=$((ok+1)); echo "CAUGHT  $n  ($(echo "$out" | grep -m1 'exit=1' | sed 's/  */ /g' | cut -c1-110))"; else miss=$((miss+1)); echo "MISSED  $n"; echo "$out" | sed 's/^/    /'; fi
-done
-echo "seeded changes caught: $ok, missed: $miss"
-[ $miss -eq 0 ]
+  if echo "$out" | grep -q "exit=1"; then echo "CAUGHT  $n  ($(echo "$out" | grep -m1 'exit=1' | sed 's/  */ /g' | cut -c1-100))"; else echo "MISSED  $n"; echo "$out" | sed 's/^/    /'; fi
+}
+export -f one
+ls -d seeded/$glob/ | xargs -P "$par" -I{} bash -c 'one {} '"$tier"
